@@ -4,7 +4,7 @@
 # against it through OALV_REPO, prints one line per check, and resets the worktree.
 set -u
 PATCH="$1"; TIER="$2"; shift 2
-WT=/tmp/wt-eval
+WT="${WT:-/tmp/wt-eval}"
 if [ ! -d "$WT" ]; then git -C /repo worktree add -q --detach "$WT" HEAD; fi
 git -C "$WT" checkout -q --detach "$(git -C /repo rev-parse HEAD)" 2>/dev/null
 git -C "$WT" checkout -q -- . && git -C "$WT" clean -qfd -e target
